@@ -12,7 +12,7 @@ FS_CLASSES = ['content', 'size', 'delete', 'retype', 'stray', 'touch', 'stray-lo
               'stray-special', 'stray-manifest-name']
 MAN_CLASSES = ['m-digest', 'm-size', 'm-drop', 'm-ghost', 'm-conflict',
                'm-disjoint-wrong', 'm-unsupported', 'm-chain', 'm-dup-ignore',
-               'm-compatible-dup', 'm-dup-manifest-entry']
+               'm-compatible-dup', 'm-dup-manifest-entry', 'm-manifest-dup-wrong']
 ODD_CLASSES = ['file-over-dir', 'm-misc-dup', 'm-ignore-file', 'm-entry-for-dir']
 UNREG_CLASSES = ['unreg-valid', 'unreg-stale', 'unreg-invalid', 'unreg-badcompressed']
 
@@ -282,6 +282,42 @@ def mutate(rng, root, layout, info, klass):
                    else [rng.choice(mtext.supported_hashes())])
         layout['mans'][m]['entries'].append(dup)
         rec['path'] = mtext.full_path(os.path.dirname(m), e)
+    elif klass == 'm-manifest-dup-wrong':
+        # sub-Manifest X registered twice: correctly (hash set H1) in the top-level
+        # Manifest, through which it gets loaded, and wrongly (disjoint hash set) in
+        # its nearer parent A, whose entry is then never used for loading
+        cands = []
+        for x, xd in layout['mans'].items():
+            a = xd['parent']
+            if a is None or a == layout['top'] or layout['mans'][a]['parent'] is None:
+                continue
+            if os.path.dirname(x) == os.path.dirname(a):
+                continue
+            cands.append((x, a))
+        if not cands:
+            return None
+        x, a = rng.choice(sorted(cands))
+        adir = os.path.dirname(a)
+        ae = [e for e in layout['mans'][a]['entries'] if e['tag'] == 'MANIFEST'
+              and e.get('_auto') is not None and mtext.full_path(adir, e) == x]
+        if not ae:
+            return None
+        ae = ae[0]
+        h1 = list(ae['_auto'])
+        other = [h for h in mtext.supported_hashes() if h not in h1]
+        if not other:
+            return None
+        h2 = rng.choice(other)
+        with open(os.path.join(root, x), 'rb') as fh:
+            raw = fh.read()
+        good = mtext.digest(h2, raw)
+        ae.pop('_auto')
+        ae['size'] = len(raw)
+        ae['sums'] = {h2: good[:-1] + ('0' if good[-1] != '0' else '1')}
+        layout['mans'][layout['top']]['entries'].insert(
+            0, {'tag': 'MANIFEST', 'path': x, 'size': 0, 'sums': {}, '_auto': h1})
+        rec['path'] = x
+        rec['frozen'] = True
     elif klass == 'm-dup-ignore':
         cands = [(m, e) for m, md in layout['mans'].items()
                  for e in md['entries'] if e['tag'] == 'IGNORE']
